@@ -5,6 +5,7 @@ package asm
 import (
 	"github.com/llir/llvm/ir"
 	"github.com/llir/llvm/ir/constant"
+	"github.com/llir/llvm/ir/metadata"
 	"github.com/llir/llvm/ir/types"
 	"github.com/llir/llvm/ir/value"
 )
@@ -405,4 +406,63 @@ func VfC04_ClosureDeep() {
 	default:
 		hC03ProgFunclets(check)
 	}
+}
+
+// VfC04_Merged: definitions the language merges.  An attribute group whose ID
+// (a symbolic digit) is defined on two lines (LLVM merges the lines), next to
+// a group defined once, used by a function header, a call site and a global
+// variable, before and after the definitions; a named metadata node defined
+// twice.  The module lists one definition per ID; every use is that very
+// object; the merged definition holds the attributes of both lines.
+//
+//vf:unwind 300
+func VfC04_Merged() {
+	d := vfString("id", 1)
+	vfAssume(vfAnd(d[0] >= '0', d[0] <= '8'))
+	use := " #" + d
+	def1 := "attributes #" + d + " = { nounwind }\n"
+	def2 := "attributes #" + d + " = { readnone }\n"
+	src := "@g = global i32 0" + use + "\n" +
+		"define void @early()" + use + " {\n\tret void\n}\n" +
+		def1 +
+		"declare void @mid()" + use + " #9\n" +
+		"attributes #9 = { cold }\n" +
+		def2 +
+		"define void @late()" + use + " {\n\tcall void @mid()" + use + "\n\tret void\n}\n" +
+		"!nm = !{!0}\n!0 = !{}\n!1 = !{}\n!nm = !{!1}\n"
+	m, err := ParseString("t.ll", src)
+	vfReach("C04.merged")
+	vfObserveStr("src", src)
+	vfAssert("C04.merged.accepted", err == nil)
+	if err != nil {
+		return
+	}
+	vfAssert("C04.merged.one-definition-per-id", len(m.AttrGroupDefs) == 2)
+	if len(m.AttrGroupDefs) != 2 {
+		return
+	}
+	def := m.AttrGroupDefs[0] // IDs ascend: the symbolic one is below 9
+	vfAssert("C04.merged.id", vfAnd(def.ID == int64(d[0]-'0'), m.AttrGroupDefs[1].ID == 9))
+	vfAssert("C04.merged.holds-both-lines", len(def.FuncAttrs) == 2)
+	isDef := func(a ir.FuncAttribute) bool {
+		g, ok := a.(*ir.AttrGroupDef)
+		if !ok {
+			return false
+		}
+		return g == def
+	}
+	early, mid, late := m.Funcs[0], m.Funcs[1], m.Funcs[2]
+	vfAssert("C04.merged.use-before-is-def", vfAnd(len(early.FuncAttrs) == 1, isDef(early.FuncAttrs[0])))
+	vfAssert("C04.merged.use-between-is-def", vfAnd(len(mid.FuncAttrs) == 2, isDef(mid.FuncAttrs[0])))
+	vfAssert("C04.merged.use-after-is-def", vfAnd(len(late.FuncAttrs) == 1, isDef(late.FuncAttrs[0])))
+	call := late.Blocks[0].Insts[0].(*ir.InstCall)
+	vfAssert("C04.merged.call-site-use-is-def", vfAnd(len(call.FuncAttrs) == 1, isDef(call.FuncAttrs[0])))
+	vfAssert("C04.merged.global-use-is-def", vfAnd(len(m.Globals[0].FuncAttrs) == 1, isDef(m.Globals[0].FuncAttrs[0])))
+	nm := m.NamedMetadataDefs["nm"]
+	vfAssert("C04.merged.named-metadata-one-definition", vfAnd(len(m.NamedMetadataDefs) == 1, nm != nil))
+	if nm != nil {
+		vfAssert("C04.merged.named-metadata-nodes-are-defs", vfAnd(len(nm.Nodes) == 2, vfAnd(nm.Nodes[0] == metadata.Node(m.MetadataDefs[0]), nm.Nodes[1] == metadata.Node(m.MetadataDefs[1]))))
+	}
+	closed, _ := hClosed(m)
+	vfAssert("C04.merged.closed", closed)
 }
